@@ -76,12 +76,19 @@ def expected(op: str, L: str, R: str, rel: Optional[str], deep: Optional[str]) -
     raise AssertionError(op)
 
 
+# operands that are literal *expressions* (instances of the library's own literal classes, as the parser builds them):
+# whatever the comparison code does with the expression objects themselves (equality, hashing, folding) is exercised
+LITERAL_CLASSES = {"null": "NullLiteral", "bool": "BooleanLiteral", "int": "IntegerLiteral", "float": "FloatLiteral", "str": "StringLiteral"}
+
+
 def producers() -> List[Tuple[str, ...]]:
     out: List[Tuple[str, ...]] = [("nothing",), ("nl0",)]
     for k in KINDS:
         out.append(("value", k))
     for k in KINDS:
         out.append(("nl1", k))
+    for k in LITERAL_CLASSES:
+        out.append(("literal", k))
     return out
 
 
@@ -90,6 +97,8 @@ def abstract_kind(p: Tuple[str, ...]) -> str:
 
 
 def key_kind(p: Tuple[str, ...]) -> str:
+    if p[0] == "literal":
+        return f"literal-{p[1]}"
     return {"nothing": "nothing", "nl0": "empty-nodelist", "nothing-new": "nothing-as-new-instance"}.get(p[0], p[-1])
 
 
@@ -157,6 +166,8 @@ def witness(op: str, lp: Tuple[str, ...], rp: Tuple[str, ...], world: str) -> st
             return f"<function returning a new Nothing()>(@.{name})", None
         if p[0] == "nl0":
             return f"@.{name}_missing", None
+        if p[0] == "literal":
+            return EXAMPLE[p[1]], None
         if p[0] == "value":
             return EXAMPLE[p[1]] if p[1] not in ("list", "dict") else f"value(@.{name}[?true==true])", EXAMPLE[p[1]]
         return f"@.{name}", EXAMPLE[p[1]]
@@ -203,7 +214,9 @@ def check(model: Model, report: Report) -> None:
                     # (mixed value/nl1 producers only differ by the unwrapping, which
                     # each side exercises on its own)
                     if {lp[0], rp[0]} == {"value", "nl1"} and lp[-1] != rp[-1]:
-                        continue
+                            continue
+                    if "literal" in (lp[0], rp[0]) and (lp[0], rp[0]) != ("literal", "literal") and lp[-1] != rp[-1]:
+                        continue  # literal vs value of another kind: the literal only differs from 'value' in its expression object
 
                 holder: dict = {}
 
@@ -220,13 +233,23 @@ def check(model: Model, report: Report) -> None:
                             return s, s
                         return make_nodelist(it, model, [make_node(it, model, s, name)], name), s
 
-                    lv, ls = mk(lp, "left")
-                    rv, rs = mk(rp, "right")
-                    holder["ls"], holder["rs"] = ls, rs
+                    def operand(p: Tuple[str, ...], name: str) -> Tuple[Any, Any]:
+                        if p[0] == "literal":
+                            s_ = it.new_sym(name, [p[1]])
+                            lit_ = it.harness_inst(model.cls("filter_expressions." + LITERAL_CLASSES[p[1]]), name)
+                            lit_.attrs["token"] = it.new_opaque(f"{name}-token")
+                            lit_.attrs["value"] = s_
+                            return lit_, s_
+                        v_, s_ = mk(p, name)
+                        return expr_stub(it, model, v_, name), s_
+
+                    le_, ls = operand(lp, "left")
+                    re_, rs = operand(rp, "right")
+                    it.ctx.operand_syms = (ls, rs)  # type: ignore[attr-defined]
                     inst = it.harness_inst(ce, "cmp")
                     inst.attrs["token"] = it.new_opaque("token")
-                    inst.attrs["left"] = expr_stub(it, model, lv, "left")
-                    inst.attrs["right"] = expr_stub(it, model, rv, "right")
+                    inst.attrs["left"] = le_
+                    inst.attrs["right"] = re_
                     inst.attrs["operator"] = Const(op)
                     ctxo = it.new_opaque("context", model.cls("filter_expressions.FilterContext"))
                     r = it.call_function(ev, [inst, ctxo], {}, None, self_av=inst)
@@ -239,8 +262,7 @@ def check(model: Model, report: Report) -> None:
                 cell = f"{op}:({key_kind(lp)},{key_kind(rp)})"
                 bads = {}
                 for run in runs:
-                    syms = {s.label: s for s in _syms_of(run)}
-                    ls, rs = syms.get("left"), syms.get("right")
+                    ls, rs = getattr(run.ctx, "operand_syms", (None, None))
                     rel = rel_of(run.ctx, ls, rs) if (ls is not None and rs is not None) else None
                     deep = deep_of(run.ctx, ls, rs) if (ls is not None and rs is not None) else None
                     rels = [rel] if rel is not None else ["lt", "eq", "gt"]
